@@ -75,6 +75,8 @@ FLAG_THEOREMS = {
     "RESIZE": ["C20_poly_random_destination_independent", "C20_poly_random_gfq_destination_independent", "C20_poly_sequence_on_one_destination",
                "C20_poly_sequence_gfq_on_one_destination", "C20_poly_request_with_its_domain"],
     "ASSIGN": ["C20_randiter_assignment_continues_like_source"],
+    "EXT_SEED_FIRST": ["C20_extension_randiter_constructor"],
+    "EXT_BASECARD": ["C20_extension_randiter_constructor"],
 }
 
 
@@ -191,6 +193,26 @@ def read_params():
     vals["SIZED"] = sized[0] if len(set(sized)) == 1 else None
     if vals["SIZED"] is None:
         notes.append("sized random / nonzerorandom of Modular<integral> / GFqDom not recognised or not uniformly guarded: %r" % sized)
+    # --- GIV_ExtensionrandIter constructor: (field, seed, size) and the bound of the sampling size (repair c502f80)
+    try:
+        ex = _strip(open(os.path.join(vf.REPO, "src/kernel/field/extension.h")).read())
+    except OSError:
+        ex = ""
+    m = re.search(r"GIV_ExtensionrandIter\s*\(\s*const\s+ExtensionField\s*&\s*F\s*,\s*const\s+Type\s*&\s*(\w+)\s*=\s*0\s*,\s*const\s+Type\s*&\s*(\w+)\s*=\s*0\s*\)\s*:(.*?)\{", ex, flags=re.S)
+    vals["EXT_SEED_FIRST"], vals["EXT_BASECARD"] = None, None
+    if m:
+        inits = _norm(m.group(3))
+        if (m.group(1), m.group(2)) == ("seed", "size") and "_size(size)" in inits and "GivRandom(seed)" in inits:
+            vals["EXT_SEED_FIRST"] = True
+        elif (m.group(1), m.group(2)) == ("size", "seed") and "_size(size)" in inits and "GivRandom(seed)" in inits:
+            vals["EXT_SEED_FIRST"] = False
+        b = _body_after(ex, r"GIV_ExtensionrandIter\s*\(\s*const\s+ExtensionField\s*&\s*F\s*,\s*const\s+Type\s*&\s*\w+\s*=\s*0\s*,\s*const\s+Type\s*&\s*\w+\s*=\s*0\s*\)\s*:.*?\{")
+        nb = _norm(b) if b else ""
+        mm = re.fullmatch(r"Type(\w+)=Type\(?(F\.[\w\.\(\)]*?\(\))\)?;if\(\(_size>\1\)\|\|\(_size==0\)\)_size=\1;", nb)
+        if mm:
+            vals["EXT_BASECARD"] = True if mm.group(2) == "F.base_field().cardinality()" else False if mm.group(2) == "F.characteristic()" else None
+    if vals["EXT_SEED_FIRST"] is None or vals["EXT_BASECARD"] is None:
+        notes.append("GIV_ExtensionrandIter constructor not recognised: %r" % ((m and (m.group(1), m.group(2), _norm(m.group(3)))),))
     # --- the source documents the native-integer overloads of the Integer range constructions as BIT-SIZE draws
     doc = []
     try:
@@ -229,8 +251,10 @@ def write_params(vals, flag):
             "Definition sized_draws_guard_small_sizes : bool := %s.\n"
             "(* Poly1Dom::random(g, r, Degree d) starts with `if (d < 0) d = 0;` (fix-4) *)\n"
             "Definition poly_random_guards_negative_degree : bool := %s.\n"
+            "(* GIV_ExtensionrandIter(F, seed, size): argument order and bound of the sampling size (extension.h, repair c502f80) *)\n"
+            "Definition ext_randiter_seed_first : bool := %s.\nDefinition ext_randiter_bounds_by_base_cardinality : bool := %s.\n"
             % (vals["MULTIPLYER"], vals["MODULO"], vals["HALFMOD"], _b(flag), _b(vals.get("CLAMP")), _b(vals.get("RESIZE")), _b(vals.get("ASSIGN")),
-               _b(vals.get("SIZED")), _b(vals.get("POLYGUARD"))))
+               _b(vals.get("SIZED")), _b(vals.get("POLYGUARD")), _b(vals.get("EXT_SEED_FIRST")), _b(vals.get("EXT_BASECARD"))))
     vf.write_if_changed(os.path.join(vf.coq_dir(AREA), "Params.v"), text)
 
 
@@ -651,6 +675,13 @@ def gen_cases(rng, tier, vals, flag):
                            ("iter", [0, 1, 2, pp - 1, pp, pp + 1, 100 * pp])]:
                 for sv in ss:
                     add(fam="ext", p=pp, e=ee, op=op, seed=s, n=6, s=sv, line="ext %d %d %s %d 6 %d" % (pp, ee, op, s, sv))
+    # GIV_ExtensionrandIter over a base field GF(p^k), k > 1 (base cardinality > characteristic): sampling sizes around both bounds; the seed
+    # differs from every size, so that a constructor taking them in the other order is seen
+    for (pp, ee, kk) in [(3, 2, 2), (2, 3, 3), (5, 2, 2)]:
+        bc = pp ** kk
+        for j, sv in enumerate([0, 1, 2, pp, pp + 1, bc - 1, bc, bc + 1, 100 * bc]):
+            s = good[(j + kk) % len(good)] if good[(j + kk) % len(good)] != sv else good[0] + 12345
+            add(fam="ext", p=pp, e=ee, op="iter", seed=s, n=6, s=sv, k=kk, line="ext %d %d iter %d 6 %d %d" % (pp, ee, s, sv, kk))
     for p in [2, 3, 11, 1000003, 2**64 + 13, 2**127 - 1]:
         for size in [0, 1, 2, p - 1, p, p + 1, 2 * p + 5, 2**64 + 1, p * 2**70 + 1]:
             for j, s in enumerate([rng.choice(good), rng.choice(stuck), rng.choice(big), 0]):
@@ -720,7 +751,7 @@ def model_line(c, out, vals):
         if out == "TIMEOUT":
             return None
         if c["op"] == "iter":
-            return "extiter %d %d %d %d %d" % (c["p"], c["e"], c["s"], c["seed"], c["n"])
+            return "extiter %d %d %d %d %d %d" % (c["p"], c["e"], c["seed"], c["s"], c["n"], c["p"] ** c.get("k", 1))
         ops = []
         for i in range(c["n"]):
             si = ext_size_i(c["s"], i)
@@ -953,7 +984,7 @@ def main(tier, replay=None):
     if None in [vals[k] for k in ("MULTIPLYER", "MODULO", "HALFMOD")]:
         chk.broke("cannot read _GIVRAN_MULTIPLYER_/_GIVRAN_MODULO_/_GIVRAN_HALFMOD_ from givrandom.h: %s" % vals)
         vals = {"MULTIPLYER": 950706376, "MODULO": 2147483647, "HALFMOD": 1073741824, "CLAMP": vals.get("CLAMP"), "RESIZE": vals.get("RESIZE"), "ASSIGN": vals.get("ASSIGN"), "SIZED": vals.get("SIZED"), "POLYGUARD": vals.get("POLYGUARD"),
-                "NORMALISES": flag, "NATIVE_DOC": vals.get("NATIVE_DOC")}
+                "NORMALISES": flag, "NATIVE_DOC": vals.get("NATIVE_DOC"), "EXT_SEED_FIRST": vals.get("EXT_SEED_FIRST"), "EXT_BASECARD": vals.get("EXT_BASECARD")}
     else:
         write_params(vals, bool(flag))
     chk.notes += pnotes
@@ -972,7 +1003,7 @@ def main(tier, replay=None):
                       % (fk, vals.get(fk), what, "are not" if vals.get(fk) is False else "could not be recognised"))
     if None in (vals.get("NATIVE_DOC") or [None]):
         chk.broke("gmp++_int_rand.inl no longer documents native-integer arguments as bit sizes (level_claimed quotes these comments): %s" % vals.get("NATIVE_DOC"))
-    chk.cov["source_flags"] = {k: vals.get(k) for k in ("NORMALISES", "CLAMP", "RESIZE", "ASSIGN", "SIZED", "POLYGUARD")}
+    chk.cov["source_flags"] = {k: vals.get(k) for k in ("NORMALISES", "CLAMP", "RESIZE", "ASSIGN", "SIZED", "POLYGUARD", "EXT_SEED_FIRST", "EXT_BASECARD")}
     chk.cov["native_overloads_documented_as_bit_sizes"] = vals.get("NATIVE_DOC")
     # 1. proofs (+ extraction)
     res = vf.coq_check_props(AREA, timeout=900)
@@ -1478,9 +1509,13 @@ def main(tier, replay=None):
                     fail("GIV_ExtensionrandIter copy", sc, "copy continues alike")
                 if order != c["e"] or ch != c["p"] or len(elems) != c["n"]:
                     chk.broke("ext: unexpected header/element count in %s: %s" % (c["line"], out[:200]))
+                bcard = c["p"] ** c.get("k", 1)
                 for k_, e_ in enumerate(elems):
-                    if any(not (0 <= x < c["p"]) for x in e_):
+                    if any(not (0 <= x < bcard) for x in e_):
                         fail(site, sc, "coefficients canonical in the base field", str(e_)); break
+                    if c["op"] == "iter" and any(x >= (c["s"] if 0 < c["s"] <= bcard else bcard) for x in e_):
+                        fail("GIV_ExtensionrandIter(F, seed, size)", "sampling size %d, base field of %d elements" % (c["s"], bcard),
+                             "coefficient indices below min(size, cardinality of the base field) (size 0 = the whole base field)", str(e_)); break
                     if c["op"] == "iter":
                         if len(e_) != c["e"]:
                             fail(site, sc, "%d coefficients" % c["e"], str(e_)); break
